@@ -51,6 +51,7 @@ func checkC04(c *Ctx) {
 	c.Rule("R3", "refresh trigger: every path that follows a redirect, and every cluster-down path, reaches triggerSlotsRefresh")
 	c.Rule("R4", "resend ownership: each arm consumes the redirected request exactly once")
 	c.Rule("R5", "ASK order and pass-through: ASKING then the command to the same address; a well-formed redirect error is never handed to the client")
+	c.Rule("R6", "only a slots refresh writes the routing table (shared with C14.R6): a redirection - in particular ASK, which is per command - never changes the owner of a slot")
 
 	onRedir := p.Field(redisPkg, "client", "onRedirection")
 	onDown := p.Field(redisPkg, "client", "onClusterDown")
@@ -296,6 +297,7 @@ func checkC04(c *Ctx) {
 	c.Check(len(redirFns) >= 1 && len(downFns) >= 1, "R3", "callbacks resolve", token.NoPos, fmt.Sprintf("%d redirect, %d cluster-down", len(redirFns), len(downFns)), "cannot resolve the functions installed as callbacks")
 	c.Expect("R3", 3)
 	c.Expect("R5", 5)
+	checkSlotFill(c, "R6")
 
 	// ---------------- R4
 	e := runOwn(c)
